@@ -72,7 +72,7 @@ claim("C18", "DESIGN.md §3 C18",
       "static analysis: parameter-to-sink summaries to a fixed point over the type-checked AST (field-mediated flows included), validator table extracted from validate() methods, dropped-error/nil dominance on go/cfg, field coverage of validate()")
 
 claim("C02", "DESIGN.md §3 C02",
-      "For all inputs: enumerable panic sources and the rule typestate. Every not-empty return of parseRule (and the helpers it returns through) carries a rule body or an error and every caller tests the isEmpty flag; regular checks are built only for error-free entries, the error check cannot be disabled, and typestate-reliant functions are called outside the checks only under an error-free/body guard; no single-value assertion on PromQL/template/YAML AST interfaces outside the idioms that establish the type; no slicing/indexing with an unchecked strings.Index result; slices.Max/Min only under a non-empty guard; optional pointers (rule bodies, for/keep_firing_for/labels/annotations, group labels, Entry.Group/File, PromQLExpr.Query) dereferenced only under a guard in the function or all callers; regexp.MustCompile only on constants, quoted text or validated config. Seven genuine crashes found by these rules were fixed. Termination and index arithmetic are NOT decided.",
+      "For all inputs: enumerable panic sources and the rule typestate. Every not-empty return of parseRule (and the helpers it returns through) carries a rule body or an error and every caller tests the isEmpty flag; regular checks are built only for error-free entries, the error check cannot be disabled, and typestate-reliant functions are called outside the checks only under an error-free/body guard; no single-value assertion on PromQL/template/YAML AST interfaces outside the idioms that establish the type; no slicing/indexing with an unchecked strings.Index result; slices.Max/Min only under a non-empty guard; optional pointers (rule bodies, for/keep_firing_for/labels/annotations, group labels, Entry.Group/File, PromQLExpr.Query) dereferenced only under a guard in the function or all callers; regexp.MustCompile only on constants, quoted text or validated config. Seven genuine crashes found by these rules were fixed. Termination and index arithmetic are NOT decided. Added: a source line is sliced only from a column bounded by that line's length on every path (NewPositionRange); indexes into split results with foreign indexes are bounded by len; rule line ranges are folded monotonically (min/max) so they cannot be reversed; the content reader fills its buffer with a whole-line read.",
       SA_NOTE,
       "static analysis: typestate on return sites, enumerated panic-source detectors over the type-checked AST, nil-guard dominance on go/cfg with caller inference, provenance of MustCompile arguments")
 
@@ -82,21 +82,21 @@ claim("C01", "DESIGN.md §3 C01",
       "static analysis: table agreement against vendored struct tags, enumeration of guarded error exits (lexical guards incl. first-match switch semantics and if-init lookups), registration/Meta table checks")
 
 claim("C04", "DESIGN.md §3 C04/C12",
-      "THIN claim (soundness of the label-flow abstraction itself is not decidable here). Decided tables the soundness argument rests on: walkNode names every parser.Expr implementer of the vendored PromQL parser; every non-experimental vendored function has a case in parsePromQLFunc with the vendored ReturnType and every non-experimental aggregator a case in walkAggregation; every site that can make CanHaveLabel false sits in a context (node kind, operator, function, guard) of the reference set of label-dropping PromQL constructs; the `non-existent label` report is dominated by !IsDead and !CanHaveLabel and keeps the group-label exemption.",
+      "THIN claim (soundness of the label-flow abstraction itself is not decidable here). Decided tables the soundness argument rests on: walkNode names every parser.Expr implementer of the vendored PromQL parser; every non-experimental vendored function has a case in parsePromQLFunc with the vendored ReturnType and every non-experimental aggregator a case in walkAggregation; every site that can make CanHaveLabel false sits in a context (node kind, operator, function, guard) of the reference set of label-dropping PromQL constructs; the `non-existent label` report is dominated by !IsDead and !CanHaveLabel and keeps the group-label exemption. Added (C04-R5): label lists of a Source only grow out of their own storage and the list helpers never edit in place; the labels stamped by count_values/label_replace/label_join are re-admitted unconditionally; only `l=\"\"` excludes a label at a selector; stores to fields of a range copy of a Source are followed by a use of the copy. C04-R3 additionally requires the metric-name exclusion to consult by() (ten known findings).",
       SA_NOTE,
       "static analysis: exhaustiveness against the vendored module's types and tables, enumeration of narrowing sites with their semantic context (case labels + guards) against a reference table, dominance on go/cfg")
 
 claim("C12", "DESIGN.md §3 C04/C12",
-      "THIN claim (that a dead verdict is right for all data is not decidable here). Decided: node/function/aggregator exhaustiveness (as C04); IsDead is set only in the four reference situations (failed canJoin, `unless on()` against an always-returning unconditional side, `or` after a side that cannot be empty, static comparison); calculateStaticReturn has a case for each of the vendored parser's six comparison operators and declares dead exactly under the negated comparison on (ls, rs), arithmetic cases never do; promql/impossible reports only IsDead sources.",
+      "THIN claim (that a dead verdict is right for all data is not decidable here). Decided: node/function/aggregator exhaustiveness (as C04); IsDead is set only in the four reference situations (failed canJoin, `unless on()` against an always-returning unconditional side, `or` after a side that cannot be empty, static comparison); calculateStaticReturn has a case for each of the vendored parser's six comparison operators and declares dead exactly under the negated comparison on (ls, rs), arithmetic cases never do; promql/impossible reports only IsDead sources. Added: label-list ownership and lost-update rules (R6); canJoin is asked about each side as its sub-expression produced it and leaves ignoring() labels out (R7); AlwaysReturns must be re-evaluated for and/unless (R8, known finding); the narrowing-context table and whole-list arguments (R9); the arithmetic folding table against the vendored lexer's operators, and known value / always-returns surviving only pass-through nodes (R10).",
       SA_NOTE,
       "static analysis: operator-table agreement (Go comparison vs PromQL operator constant), context enumeration of IsDead stores, dominance on go/cfg")
 
 claim("C06", "DESIGN.md §3 C06",
-      "THIN claim (that NewPositionRange re-discovers the right bytes for every YAML scalar style is a function of the input bytes and is not decided). Decided, all necessary for carets to land on the reported text: every Diagnostic whose columns are sized by len(E.Value) carries E.Pos, and PromQL offsets are only ever paired with the Pos of a PromQL expression value; PromQL offsets are converted Start+1/End, End+1 only (and always) for ranges from an inclusive-end producer whose every return is inclusive; spans that start at column 1 end at len(value) (five sites end one short: known findings); line/column displacement and the source-line table are forwarded or additively re-based through every parser function down to AddOffset/NewPositionRange, with the roles anchored in the fields AddOffset adds them to; position writer and renderer both count bytes; parseRule folds every part's line and every field's last line into Rule.Lines.",
+      "THIN claim (that NewPositionRange re-discovers the right bytes for every YAML scalar style is a function of the input bytes and is not decided). Decided, all necessary for carets to land on the reported text: every Diagnostic whose columns are sized by len(E.Value) carries E.Pos, and PromQL offsets are only ever paired with the Pos of a PromQL expression value; PromQL offsets are converted Start+1/End, End+1 only (and always) for ranges from an inclusive-end producer whose every return is inclusive; spans that start at column 1 end at len(value) (five sites end one short: known findings); line/column displacement and the source-line table are forwarded or additively re-based through every parser function down to AddOffset/NewPositionRange, with the roles anchored in the fields AddOffset adds them to; position writer and renderer both count bytes; parseRule folds every part's line and every field's last line into Rule.Lines. Also: the re-basing site derives the column displacement from the source-line table; the line table holds the blanked text the decoder saw (R7, shared with C10-R1); line-range folds are monotone.",
       SA_NOTE,
       "static analysis: composite-literal field agreement over the type-checked AST, producer classification by definitions, parameter-role propagation from sinks (fixpoint) with call-site checks, range-unit typing")
 
 claim("C19", "DESIGN.md §3 C19",
-      "THIN claim (the relational statement over all documents and the displacement arithmetic at the nested-YAML site are not decided). Decided: one rule constructor (parseRule) reached from exactly the relaxed descent and the strict wrapper; the strict wrapper passes its node and line table with zero displacement and returns parseRule's result unchanged or an error; Parse starts both modes with zero displacement and the content reader's line table read at each call; the strict group parser offers every element of `rules` to the wrapper; the relaxed descent visits every mapping value, every child and every recognised group's rules unconditionally and keeps every non-empty parseRule result; tryParseGroup's key loop reads no loop-carried state (key-order independence); both group parsers store each group key in the same Group field.",
+      "THIN claim (the relational statement over all documents and the displacement arithmetic at the nested-YAML site are not decided). Decided: one rule constructor (parseRule) reached from exactly the relaxed descent and the strict wrapper; the strict wrapper passes its node and line table with zero displacement and returns parseRule's result unchanged or an error; Parse starts both modes with zero displacement and the content reader's line table read at each call; the strict group parser offers every element of `rules` to the wrapper; the relaxed descent visits every mapping value, every child and every recognised group's rules unconditionally and keeps every non-empty parseRule result; tryParseGroup's key loop reads no loop-carried state (key-order independence); both group parsers store each group key in the same Group field. Also (R3): the anonymous group is created per rule list (the group parameter is only reassigned in the sequence case).",
       SA_NOTE,
       "static analysis: who-may-construct / who-may-call over the type-checked program, call-argument agreement, lexical-guard (unconditional-visit) checks, loop-carried read analysis, sibling switch-table agreement")
